@@ -50,6 +50,7 @@ SCHEMAS = {
     "verif-oc": ([S + "/verif-oc.yang"], [S]),
     "verif-clash": ([S + "/verif-clash.yang"], [S]),
     "verif-action": ([S + "/verif-action.yang"], [S]),
+    "lab-telemetry": ([S + "/lab-telemetry.yang"], [S]),
     "verif-multi": ([S + "/multi/vm-base.yang", S + "/multi/vm-aug-a.yang", S + "/multi/vm-aug-b.yang", S + "/multi/vm-aug-c.yang", S + "/multi/vm-types.yang", S + "/multi/vm-Types.yang"], [S + "/multi"]),
     "cts": (["integration_tests/schemaops/yang/ctestschema.yang", "integration_tests/schemaops/yang/ctestschema-rootmod.yang"], ["integration_tests/schemaops/yang"]),
     "uts": (["integration_tests/schemaops/yang/utestschema.yang", "integration_tests/schemaops/yang/refschema.yang",
@@ -89,6 +90,7 @@ QUICK_COMBOS = [
     ("verif-oc", "go", "compress-rich-simple"), ("verif-oc", "go", "uncompressed-rich"), ("verif-oc", "go", "paths"), ("verif-oc", "proto", "proto-hier-compress"),
     ("verif-clash", "go", "compress-rich-simple"), ("verif-clash", "go", "uncompressed-rich"), ("verif-clash", "go", "paths"), ("verif-clash", "proto", "proto-hier-compress"),
     ("verif-action", "go", "compress-rich-simple"), ("verif-action", "go", "paths"), ("verif-action", "proto", "proto-hier-compress"),
+    ("lab-telemetry", "proto", "proto-flat"),
     ("verif-multi", "go", "compress-rich-simple"), ("verif-multi", "go", "uncompressed-rich"), ("verif-multi", "proto", "proto-hier-compress"),
     ("cts", "go", "compress-rich-simple"), ("uts", "go", "uncompressed-rich"), ("tm-enum-module", "go", "compress-opstate"), ("tm-enum-union", "go", "compress-rich-simple"),
     ("tm-openconfig-simple", "go", "paths-split"), ("tm-openconfig-withlist", "go", "compress-wrapper"), ("oc-options", "go", "compress-excludestate"),
@@ -402,6 +404,8 @@ def hgen_check_seq(info, combo, seq, modes, refs, workdir):
         return (-1, "hgen produced no result")
     for i, rec in enumerate(g):
         v = seq[i]
+        if rec.get("changed_later"):
+            return (i, "the result of generation %d (variant %s), still held by the caller, reads differently after the later generations of the process have run (it aliases memory that a later generation reuses)" % (i, v))
         if not rec.get("ok"):
             return (i, "generation %d (variant %s, %s) fails although the same configuration generates in a fresh process: %s" % (i, v, modes[i], rec.get("err")))
         if rec["sha"] != refs[v][0]:
@@ -415,7 +419,9 @@ def hgen_check_seq(info, combo, seq, modes, refs, workdir):
     return None
 
 
-def inproc_sig(tool2, seq, modes, idx):
+def inproc_sig(tool2, seq, modes, idx, detail=""):
+    if "still held by the caller" in detail:
+        return "C25:%s:same-process:earlier-result-changed" % tool2
     if any(v != seq[idx] for v in seq[:idx]):
         kind = "after-other-configuration"
     elif idx > 0 and modes[idx] == "canon":
@@ -459,7 +465,12 @@ def inproc_leg(info, combo, tier, r, workdir, res):
         if idx < 0:
             res["skipped_inproc"] = detail
             return
-        sig = inproc_sig(tool2, seq, modes, idx)
+        sig = inproc_sig(tool2, seq, modes, idx, detail)
+        if sig.endswith("earlier-result-changed"):
+            # needs the generations after idx as well: reported with the whole sequence
+            res["violations"].append({"combo": list(combo), "map": "inproc", "sites": None, "rc": 0, "file": "(in-process, %s)" % tool2, "inproc": True,
+                                      "seq": seq, "modes": modes, "inproc_sig": sig, "detail": "sequence %s with map orders %s: %s" % (",".join(seq), ",".join(modes), detail)})
+            return
         # minimise: drop earlier generations while the same class of violation persists at the last one
         seq, modes = seq[:idx + 1], modes[:idx + 1]
         i = 0
